@@ -46,26 +46,28 @@ Fixpoint create_enum_types (table : string) (cols : list column_def) (seen : lis
   end.
 
 (* :12-165 build_create_table_for_backend, Postgres *)
-Definition create_table_stmt (table : string) (cols : list column_def) (ks : list table_constraint) : stmt :=
+(* one column of CREATE TABLE: inline PRIMARY KEY only without a table-level key; serial for an auto-increment key column *)
+Definition create_coldef (table : string) (ks : list table_constraint) (c : column_def) : coldef :=
   let has_table_pk := existsb is_pk ks in
   let auto_cols := flat_map (fun k => match k with CPrimaryKey true pk => pk | _ => [] end) ks in
-  let coldefs :=
-    map (fun c =>
-      let d := sea_coldef table c in
-      let pk := (match c_primary_key c with Some _ => true | None => false end && negb has_table_pk)%bool in
-      let ty := if (mem_str (c_name c) auto_cols && supports_auto_increment (c_type c))%bool
-                then match serial_text (c_type c) with Some s => mkTy s false | None => cd_type d end
-                else cd_type d in
-      mkCd (cd_name d) ty (cd_notnull d) (cd_default d) pk) cols in
-  SCreateTable table coldefs
-    (flat_map (fun k => match k with CPrimaryKey _ pk => [pk] | _ => [] end) ks)
-    (flat_map (fun k => match k with
-                        | CForeignKey n fc rt rc od ou =>
-                            [mkFk (Some (build_foreign_key_name table fc n)) fc rt rc od ou]
-                        | _ => []
-                        end) ks)
+  let d := sea_coldef table c in
+  let pk := (match c_primary_key c with Some _ => true | None => false end && negb has_table_pk)%bool in
+  let ty := if (mem_str (c_name c) auto_cols && supports_auto_increment (c_type c))%bool
+            then match serial_text (c_type c) with Some s => mkTy s false | None => cd_type d end
+            else cd_type d in
+  mkCd (cd_name d) ty (cd_notnull d) (cd_default d) pk.
+Definition create_pks (ks : list table_constraint) : list (list string) :=
+  flat_map (fun k => match k with CPrimaryKey _ pk => [pk] | _ => [] end) ks.
+Definition create_fks (table : string) (ks : list table_constraint) : list fkdef :=
+  flat_map (fun k => match k with
+                     | CForeignKey n fc rt rc od ou => [mkFk (Some (build_foreign_key_name table fc n)) fc rt rc od ou]
+                     | _ => []
+                     end) ks.
+Definition create_table_stmt (table : string) (cols : list column_def) (ks : list table_constraint) : stmt :=
+  SCreateTable table (map (create_coldef table ks) cols) (create_pks ks) (create_fks table ks)
     [].   (* :150-154 CHECK constraints are not emitted *)
 
+Definition not_unique_c (k : table_constraint) : bool := match k with CUnique _ _ => false | _ => true end.
 Inductive gen_error := GenNormalize.   (* create_table.rs:176-178 *)
 
 Definition gen_create_table (table : string) (cols : list column_def) (ks : list table_constraint)
@@ -75,7 +77,7 @@ Definition gen_create_table (table : string) (cols : list column_def) (ks : list
   | Ok n =>
       let cols := t_columns n in
       let ks := t_constraints n in
-      let not_unique := filter (fun k => match k with CUnique _ _ => false | _ => true end) ks in
+      let not_unique := filter not_unique_c ks in
       Ok (create_enum_types table cols []
           ++ [create_table_stmt table cols not_unique]
           ++ flat_map (fun k => match k with
